@@ -67,6 +67,9 @@ func (a *FilteredAdapter) LoadFilteredPolicy(model model.Model, filter interface
 	if filter == nil {
 		return a.LoadPolicy(model)
 	}
+	// the caller has cleared (or is extending) its model for a filtered view: whether or not
+	// this load completes, what it holds must not be saved over the file until a full load succeeds
+	a.filtered = true
 	if a.filePath == "" {
 		return errors.New("invalid file path, file path cannot be empty")
 	}
@@ -75,11 +78,7 @@ func (a *FilteredAdapter) LoadFilteredPolicy(model model.Model, filter interface
 	if !ok {
 		return errors.New("invalid filter type")
 	}
-	err := a.loadFilteredPolicyFile(model, filterValue, persist.LoadPolicyLine)
-	if err == nil {
-		a.filtered = true
-	}
-	return err
+	return a.loadFilteredPolicyFile(model, filterValue, persist.LoadPolicyLine)
 }
 
 func (a *FilteredAdapter) loadFilteredPolicyFile(model model.Model, filter *Filter, handler func(string, model.Model) error) error {
